@@ -699,6 +699,7 @@ def _ops():
     for impl in ("conv_to_int", "conv_to_str"):
         add(CONV_T, op="serializer", target="Conv", impl=impl)
     add(CONV_T, op="reset_serializer", target="Conv")
+    add(CONV_T, op="cache_set_size", target="Conv", v=64)
     add(["ConvDC"], op="deserializer", target="ConvDC", impl="convdc_from_int")
     add(["ConvDC"], op="reset_deserializers", target="ConvDC")
     add(["ConvDC"], op="serializer", target="ConvDC", impl="convdc_to_int")
@@ -846,6 +847,10 @@ def apply(op):
         setattr(holder, attr, _arg(op))
         return
     cls = TYPES[op["target"]]
+    if k == "cache_set_size":  # resizes (re-creates) every cache: later operations must still invalidate them
+        import apischema.cache
+        apischema.cache.set_size(op["v"])
+        return
     if k == "deserializer":
         deserializer(IMPLS[op["impl"]])
     elif k == "serializer":
